@@ -53,8 +53,17 @@ IsNullValue(t, v) == LET r == Resolve(t) IN IF r.k = "opt" THEN v = <<>> ELSE IF
 SymbolOf(t, v) == { i \in 1..Len(t.syms) : t.syms[i].v = v }
 
 \* flags: the set of symbols whose bit is set, if the value has no other bits; values are built with OrBits, so compare
-FlagSubsets(t) == SUBSET (1..Len(t.syms))
-FlagsOf(t, v) == { S \in FlagSubsets(t) : Nat0(OrBits({ t.syms[i].bit : i \in S })) = v }
+\* flags: the symbols are tried in declaration order against the bits that are still unaccounted for; a symbol is named when
+\* *all* its bits are among them (a symbol of several bits is not named when only some of its bits are set); if bits remain
+\* that no symbol covers, the value is written as an integer (ndjson.md; cpp/ndjson/ndjson.go:writeFlagsConverters)
+FlagBitsOf(t, v) == LET B == UNION { t.syms[i].bits : i \in 1..Len(t.syms) } \cup {5}
+                    IN CHOOSE S \in SUBSET B : Nat0(OrBits(S)) = v
+RECURSIVE Greedy(_, _, _, _)
+Greedy(t, i, rem, acc) == IF i > Len(t.syms) THEN [names |-> acc, rem |-> rem]
+                          ELSE IF t.syms[i].bits # {} /\ t.syms[i].bits \subseteq rem
+                               THEN Greedy(t, i + 1, rem \ t.syms[i].bits, Append(acc, i))
+                               ELSE Greedy(t, i + 1, rem, acc)
+FlagsOf(t, v) == LET g == Greedy(t, 1, FlagBitsOf(t, v), <<>>) IN IF g.rem = {} THEN {g.names} ELSE {}
 
 RECURSIVE Json(_, _)
 Json(t, v) ==
@@ -80,8 +89,7 @@ Json(t, v) ==
     [] t.k = "enum" -> IF SymbolOf(t, v) # {} THEN JLit(t.syms[CHOOSE i \in SymbolOf(t, v) : TRUE].s) ELSE JInt(v)
     [] t.k = "flags" -> IF FlagsOf(t, v) # {}
                         THEN LET S == CHOOSE S \in FlagsOf(t, v) : TRUE
-                             IN JArr(SelectSeq([i \in 1..Len(t.syms) |-> IF i \in S THEN JLit(t.syms[i].s) ELSE JNull],
-                                               LAMBDA x : x # JNull))
+                             IN JArr([k \in 1..Len(S) |-> JLit(t.syms[S[k]].s)])
                         ELSE JInt(v)
     [] t.k = "rec" -> JObj(SelectSeq([i \in 1..Len(t.fields) |->
                                         IF IsNullable(t.fields[i].t) /\ IsNullValue(t.fields[i].t, v[i])
